@@ -292,6 +292,12 @@ def cases(seed, tier, model_tuples=None):
             c["name"] = "fname/%r/%s" % (fn[:10], parent)
             c["usable"] = None
             out.append(c)
+    # a file of more than 256 KiB (a size at which "optimisations" like to kick in), small syntax tree
+    big = LAYOUT_TEMPLATES[1] + "/* " + "pad " * 70000 + "*/\n" + LAYOUT_TEMPLATES[6]
+    for chain in (False, True):
+        c = make_case(rng, big, "inline" if chain else "none", chain, False, "sparse", file="/w/src/big.js")
+        c["name"] = "big/%s" % chain
+        out.append(c)
     # unusual but legal file names (a backslash is an ordinary character on a '/'-separated host; names that
     # look like V8's virtual ones): the map's only source is still the base name, every position resolves
     for fn in ["/srv/app/generated\\join.js", "dist\\join.js", "<anonymous>", "<eval>/join.js", "/srv/app/lib/<generated>.js",
